@@ -318,9 +318,105 @@ def _serialize(rng):
             "O HTMLDependency [ name " + H("h") + " version " + S("1") + " source N script L [ ] stylesheet L [ ] meta L [ ] all_files F head N ]",
             "O HTMLDependency [ name " + S("n") + " version " + S("1") + " source N script U [ ] stylesheet L [ ] meta L [ ] all_files N head " + S("txt") + " ]",
             "O HTMLDependency [ name " + S("n") + " ]", S("not a dep"), "N"])
-    ind = rng.choice(["N", "N", "I 0", "I 2", "I 4", "I 1"]) if rng.random() < 0.92 else rng.choice(["I -1", S("  "), "T"])
+    ind = rng.choice(["N", "N", "I 0", "I 2", "I 4", "I 1"]) if rng.random() < 0.97 else rng.choice(["I -1", S("  "), "T"])
     return [(str(d.version), True, 0, str(d.version))], f"[ {t} {ind} ]"
 
+
+# ------------------------------------------------------------------ the primitives by themselves
+def _anyval(rng) -> str:
+    """a value of every kind of the universe"""
+    return rng.choice(["N", "T", "F", "I 0", "I 3", "D " + es("1.5"), S(""), S("ab"), H(""), H("ab"), "L [ ]", "L [ " + S("a") + " ]",
+                       "U [ ]", "U [ " + S("a") + " N ]", "M [ ]", "M [ " + es("a") + " " + S("b") + " ]"])
+
+
+def _strval(rng) -> str:
+    return S(rng.choice(["", "a", "ab", "aXbXc", "XX", "X", "é😀", "</", "aa"]))
+
+
+def _prim_replace_first(rng):
+    r = rng.random()
+    if r < 0.7:
+        hay = rng.choice(["", "a", "aXbXc", "XaX", "XX", "aaa", "é😀é", "abc"])
+        return [], f"[ {rng.choice([S, S, S, H])(hay)} {rng.choice([S, S, S, H])(rng.choice(['', 'X', 'a', 'aa', 'zz', 'é', 'XX', 'abc', 'abcd']))} " \
+                   f"{rng.choice([S, S, S, H])(rng.choice(['', 'Y', 'X', 'XX', '<b>']))} ]"
+    return [], f"[ {_anyval(rng) if rng.random() < 0.5 else _strval(rng)} {_anyval(rng) if rng.random() < 0.5 else _strval(rng)} " \
+               f"{_anyval(rng) if rng.random() < 0.5 else _strval(rng)} ]"
+
+
+def _prim_scan(rng):
+    if rng.random() < 0.85:
+        parts = [rng.choice([OPEN, CLOSE, OPEN, CLOSE, "x", "\n", "\r", "</", "<script", "{}", " ", OPEN[:-1], CLOSE[1:], "é"])
+                 for _ in range(rng.choice([0, 1, 2, 3, 4, 5, 6, 8]))]
+        return [], f"[ {S(''.join(parts))} ]"
+    return [], f"[ {_anyval(rng)} ]"
+
+
+def _prim_json_loads(rng):
+    r = rng.random()
+    if r < 0.5:
+        return [], f"[ {S(body(rng))} ]"
+    if r < 0.85:
+        return [], f"[ {S(rng.choice(ODD_BODIES + ['[[], {}]', '{\"a\": {\"b\": [true, false, null]}}', '\"\\\\ \\/ \\b\\f\\n\\r\\t \\\"\"', '[ ]', '{ }', ' [ true , null ] ', '[\"a\" \"b\"]', '{\"a\"}', '{\"a\":}', '{:\"a\"}', '[null,,null]', 'nulll', 'TRUE', '\"\\t\"', '\"\t\"', '\"\x7f\"']))} ]"
+    return [], f"[ {_anyval(rng)} ]"
+
+
+def _jsonable(rng, depth=0) -> str:
+    r = rng.random()
+    if depth > 2 or r < 0.45:
+        return rng.choice(["N", "T", "F", S(text(rng)), S("é😀\x7f\x1f\u2028"), S('q"\\/')])
+    if r < 0.7:
+        return rng.choice(["L", "L", "U"]) + " [ " + "".join(_jsonable(rng, depth + 1) + " " for _ in range(rng.choice([0, 1, 2, 3]))) + "]"
+    if r < 0.98:
+        ks = rng.sample(["a", "b", "k k", "é", "", '"'], rng.choice([0, 1, 2, 3]))
+        return "M [ " + "".join(es(k) + " " + _jsonable(rng, depth + 1) + " " for k in ks) + "]"
+    return rng.choice(["I 1", "D " + es("1.5"), H("h"), H("h"), "T"])
+
+
+def _prim_json_dumps(rng):
+    ind = rng.choice(["N", "N", "I 0", "I 1", "I 2", "I 4"]) if rng.random() < 0.97 else rng.choice(["I -1", S(" "), "T", "F"])
+    return [], f"[ {_jsonable(rng)} {ind} ]"
+
+
+def _norm(v: str) -> str:
+    from packaging.version import Version
+    return str(Version(v))
+
+
+def _prim_str(rng):
+    return [], f"[ {rng.choice([_anyval(rng), 'O Version [ rank I ' + str(rng.choice([0, 1, 2])) + ' text ' + S(_norm(rng.choice(GOOD_VERSIONS))) + ' ]'])} ]"
+
+
+def _prim_mk_tag(rng):
+    name = S(rng.choice(["script", "div", "x-y"])) if rng.random() < 0.97 else _anyval(rng)
+    kids = "U [ " + "".join((rng.choice([S, S, H])(text(rng)) if rng.random() < 0.97 else _anyval(rng)) + " " for _ in range(rng.choice([0, 1, 1, 2]))) + "]"
+    ks = rng.sample(["type", "data_html_dependency", "class_", "a_b_", "id", "x__", "a"] + (["a_"] if rng.random() < 0.1 else []),
+                    rng.choice([0, 1, 2, 2, 3]))
+    kw = "M [ " + "".join(es(k) + " " + (rng.choice([S(text(rng)), "T"]) if rng.random() < 0.96 else rng.choice(["F", "N", "I 3", H("h")])) + " " for k in ks) + "]"
+    return [], f"[ {name} {kids} {kw} ]"
+
+
+def _prim_call_kw(rng):
+    if rng.random() < 0.15:
+        return [], f"[ {_anyval(rng)} ]"
+    ks = rng.sample(["a", "b", "c", "d", "e", "self", "A"], rng.choice([0, 1, 2, 2, 3, 4]))
+    if rng.random() < 0.5:
+        ks = [k for k in ["a", "b"] if k not in ks] + ks
+        rng.shuffle(ks)
+    return [], "[ M [ " + "".join(es(k) + " " + _anyval(rng) + " " for k in ks) + "] ]"
+
+
+C13_GENS["prim_replace_first"] = _prim_replace_first
+C13_GENS["prim_findall"] = _prim_scan
+C13_GENS["prim_sub"] = _prim_scan
+C13_GENS["prim_json_loads"] = _prim_json_loads
+C13_GENS["prim_json_dumps"] = _prim_json_dumps
+C13_GENS["prim_str"] = _prim_str
+C13_GENS["prim_mk_tag"] = _prim_mk_tag
+C13_GENS["prim_call_kw"] = _prim_call_kw
+PRIMS = [k for k in C13_GENS if k.startswith("prim_")]
+#: the translated functions of the area
+FUNCS = ["HTMLTextDocument_static_extract", "HTMLTextDocument_extract", "HTMLTextDocument_init", "TagList_render",
+         "HTMLTextDocument_render", "HTMLDependency_serialize"]
 
 C13_GENS["HTMLDependency_serialize"] = _serialize
 C13_GENS["HTMLTextDocument_render"] = _render
@@ -345,8 +441,9 @@ def lines_c13(rng, funcs: list[str], n: int) -> list[str]:
     return out
 
 
-def add_src_c13(ck, funcs: list[str], quick: int = 300, thorough: int = 3000):
-    """`Check.add_src` for the functions of this area (op `srcc13`)"""
+def add_src_c13(ck, funcs: list[str] | None = None, quick: int = 120, thorough: int = 1500):
+    """`Check.add_src` for the functions of this area and the primitives of Py/PrimC13.lean (op `srcc13`)"""
     import core
+    funcs = FUNCS + PRIMS if funcs is None else funcs
     ls = lines_c13(ck.rng, funcs, thorough if ck.tier == "thorough" else quick)
     ck.src_lines += list(zip(ls, core.impl_many(ls)))
